@@ -5,7 +5,19 @@ sys.path.insert(0, os.path.dirname(os.path.dirname(os.path.abspath(__file__))))
 from gen_numth_tabs import gen_numth_tabs, extract
 
 LEAN_MODULES = ["MpirProofs.Props.C16"]
-THEOREMS = []          # filled below
+THEOREMS = ["Mpir.Numth.fib_table_ok", "Mpir.Numth.fib_table_limits_ok", "Mpir.Numth.fac_table_ok",
+            "Mpir.Numth.oddfac_table_ok", "Mpir.Numth.odd2fac_table_ok", "Mpir.Numth.fac2cnt_table_ok",
+            "Mpir.Numth.limbroots_table_ok", "Mpir.Numth.fac_inverse_table_ok", "Mpir.Numth.bin2kk_table_ok",
+            "Mpir.Numth.primes_table_ok", "Mpir.Numth.pp_table_ok", "Mpir.Numth.sqres_tables_ok",
+            "Mpir.Numth.primorial_table_ok", "Mpir.Numth.fib2_ui_spec", "Mpir.Numth.fib2_ui_spec_pred",
+            "Mpir.Numth.fib_ui_spec_partial", "Mpir.Numth.fib_ui_spec_of_ne_one_mod_four",
+            "Mpir.Numth.lucnum_ui_spec", "Mpir.Numth.lucnum2_ui_spec", "Mpir.Numth.strong_prp_prime",
+            "Mpir.Numth.miller_rabin_never_rejects_prime", "Mpir.Numth.isPrime_complete",
+            "Mpir.Numth.factorial_odd_part_mul_two_pow", "Mpir.Numth.fac_ui_structure",
+            "Mpir.Numth.oddfac_1_spec_below_dsc", "Mpir.Numth.fac_ui_spec_below_dsc",
+            "Mpir.Numth.fac_ui_spec_partial", "Mpir.Numth.two_fac_ui_spec_below_dsc",
+            "Mpir.Numth.two_fac_ui_spec_partial", "Mpir.Numth.remove_spec", "Mpir.Numth.remove_exceptions",
+            "Mpir.Numth.bin_ui_spec", "Mpir.Numth.binom_spec", "Mpir.Numth.bin_uiui_small_spec"]
 GEN = [gen_numth_tabs]
 TRUSTED = ["hand-written value-level models lean/Mpir/Model/Numth.lean (tied by correspondence and a run-time model==spec comparison on every op)",
            "table translator tools/gen_numth_tabs.py (gcc -E -dM / -E -P + a compiled dump program)",
